@@ -76,10 +76,12 @@ RETCODE adfGetFileBlocks ( struct AdfVolume * const        vol,
 
     /* in file extension blocks */
     nSect = entry->extension;
-    while(nSect!=0) {
+    /* the arrays hold nbExtens / nbData numbers: stops on a cyclic or over-long chain */
+    while ( nSect != 0 && m < fileBlocks->nbExtens ) {
         fileBlocks->extens[m++] = nSect;
-        adfReadFileExtBlock(vol, nSect, &extBlock);
-        for(i=0; i<extBlock.highSeq; i++)
+        if ( adfReadFileExtBlock(vol, nSect, &extBlock) != RC_OK )
+            break;
+        for ( i = 0 ; i < extBlock.highSeq && i < MAX_DATABLK && n < fileBlocks->nbData ; i++ )
             fileBlocks->data[n++] = extBlock.dataBlocks[MAX_DATABLK-1-i];
         nSect = extBlock.extension;
     }
